@@ -132,6 +132,8 @@ class Sim(RxMixin):
         self.cfg = config
         self.handles = []
         self.rxs = []          # reactions built from copies of arena molecules (checks/c13_rx.py)
+        install_layout_stub()
+        random.seed(0x5EED)     # the library draws from the global generator (random-ordered SMILES handed to the layout engine)
         self.probes = probes if probes is not None else Counter()
         self.steps = 0
         self.sig = []          # distinctness signature
@@ -1469,9 +1471,29 @@ def op_kinds(trace):
     return kinds
 
 
+class _LayoutStub:
+    """Stands in for the bundled JavaScript layout engine behind `clean2d()`: that engine gives different coordinates from
+    call to call (measured: two calls in one process differ), which no seed controls.  The seam is the one call the library
+    makes into it, `ctx.call('$.clean2d', smiles) -> [[x, y], ...]` in SMILES order; chython's own wrapper around it (atom
+    order, scaling, component shifting, cache handling) runs for real."""
+
+    @staticmethod
+    def call(fn, smiles_string):
+        return [[i * 0.7 + 0.13 * ((i * 7) % 5), ((i * 37) % 11) * 0.31 - ((i * i) % 3) * 0.17] for i in range(4 + len(smiles_string))]
+
+    eval = staticmethod(lambda *a, **k: None)
+
+
+def install_layout_stub():
+    import chython.algorithms.calculate2d.molecule as c2
+    if not isinstance(c2.ctx, _LayoutStub):
+        c2.ctx = _LayoutStub()
+
+
 def prewarm():
     """Touch process-global lazily built tables so that line-event counts do not depend on which run
     happened to be first in a process."""
+    install_layout_stub()
     from chython import smiles
     from chython.periodictable import Element
     for cls in Element.__subclasses__():
